@@ -1,10 +1,92 @@
-"""Counterexample artefacts and replay (DESIGN.md 3.7)."""
-import json, os, re, subprocess, time
+"""Counterexample artefacts and replay (DESIGN.md 3.7 / 10.6).
+
+For a violating harness the solver's assignment is turned into an ordinary unit test by Kani's
+concrete playback and run NATIVELY against the real /repo sources (stubs are not applied there:
+a logging #[global_allocator], enabled by `--cfg verif_playback`, feeds the same layout log; the
+drop ledger is plain Rust), in the dev profile and in a release-like profile.
+"""
+import json, os, re, shutil, subprocess, time
 from common import *
 import kani_engine as K
 
+PLAY_DIR = os.path.join(WORK, "playback")
+MAX_NATIVE_REPLAYS = int(os.environ.get("VERIF_MAX_REPLAYS", "2"))
+_done = {"n": 0}
+
+# harnesses whose verdict is observed *by* a stub: nothing to run natively
+MODEL_ONLY = [
+    (re.compile(r"^c02::"), "the atomic-event recording stubs are the observer; artefact = failed checks"),
+    (re.compile(r"_af_|layout_only"), "allocation failure is injected by the allocator stub; the real allocator does not fail on demand"),
+]
+UB_CLASS = re.compile(r"dereference failure|pointer|misaligned|unsafe precondition|outside object bounds|deallocated|dead object", re.I)
+
+
+def playback_tests(h):
+    """Ask Kani for the concrete playback unit tests of a failing harness."""
+    cmd = ["cargo", "kani", "-Z", "stubbing", "-Z", "concrete-playback", "--concrete-playback=print",
+           "--harness", h.name, "--exact", "--output-format", "terse"]
+    try:
+        p = subprocess.run(cmd, cwd=K.KANI_CRATE, env=K.kani_env(h.profile), capture_output=True, text=True, timeout=900)
+    except subprocess.TimeoutExpired:
+        return []
+    out = p.stdout + p.stderr
+    tests = []
+    for block in re.findall(r"```\n(.*?)\n```", out, re.S):
+        m = re.search(r"#\[test\]\nfn (kani_concrete_playback_\w+)\(\)", block)
+        if m:
+            tests.append((m.group(1), block[block.index("#[test]"):]))
+    return tests
+
+
+def native_run(h, tests, release):
+    """Build a scratch copy of the harness crate with the playback tests appended to the harness's
+    module and run them natively, one process per test. Returns list of (test, rc, tail)."""
+    module = h.name.split("::")[0]
+    d = os.path.join(PLAY_DIR, h.leaf)
+    shutil.rmtree(d, ignore_errors=True)
+    os.makedirs(d)
+    shutil.copytree(os.path.join(K.KANI_CRATE, "src"), os.path.join(d, "src"))
+    for f in ("Cargo.toml", "Cargo.lock"):
+        shutil.copy(os.path.join(K.KANI_CRATE, f), d)
+    if REPO != "/repo":
+        ct = open(os.path.join(d, "Cargo.toml")).read().replace('path = "/repo"', f'path = "{REPO}"')
+        open(os.path.join(d, "Cargo.toml"), "w").write(ct)
+    with open(os.path.join(d, "src", module + ".rs"), "a") as f:
+        f.write("\n\n// ---- concrete playback tests appended by lib/replay.py ----\n")
+        for _, code in tests:
+            f.write(code + "\n")
+    env = dict(os.environ)
+    env["CARGO_NET_OFFLINE"] = "true"
+    flags = K.PROFILES[h.profile] + " --cfg verif_playback"
+    if release:
+        flags += " -C opt-level=2 -C debug-assertions=off"
+    env["RUSTFLAGS"] = flags
+    env["CARGO_TARGET_DIR"] = os.path.join(TARGET, "playback-release" if release else "playback-dev")
+    res = []
+    for name, _ in tests:
+        try:
+            p = subprocess.run(["cargo", "kani", "playback", "-Z", "concrete-playback", "--", name],
+                               cwd=d, env=env, capture_output=True, text=True, timeout=900)
+            txt = (p.stdout + p.stderr)
+            lines = txt.splitlines()
+            tail = []
+            for i, l in enumerate(lines):
+                if "panicked at" in l:
+                    tail += lines[i:i + 3]
+                elif re.search(r"^test result|signal|SIG[A-Z]+|^error(\[|:)", l):
+                    tail.append(l)
+            tail = [t.strip()[:300] for t in tail][-8:]
+            built = "test result" in txt or "panicked" in txt or "signal" in txt
+            res.append((name, p.returncode if built else None, tail))
+        except subprocess.TimeoutExpired:
+            res.append((name, None, ["timeout"]))
+    shutil.rmtree(d, ignore_errors=True)
+    return res
+
 
 def record(prop, h, key):
+    """Write the artefact; replay natively when possible. Returns (path, status) with status in
+    reproduced | ub_unconfirmed | model_only | not_replayed | not_reproduced | playback_failed."""
     d = os.path.join(REPLAYS, prop)
     os.makedirs(d, exist_ok=True)
     path = os.path.join(d, h.leaf + "-" + h.profile + ".json")
@@ -14,9 +96,35 @@ def record(prop, h, key):
         "failed_checks": [K.fmt_check(c) for c in h.failed],
         "how_to_replay": f"bin/check {prop} --replay {path}",
     }
+    status = "not_replayed"
+    why = None
+    for rx, reason in MODEL_ONLY:
+        if rx.search(h.name):
+            status, why = "model_only", reason
+    if status == "not_replayed" and _done["n"] < MAX_NATIVE_REPLAYS:
+        _done["n"] += 1
+        tests = playback_tests(h)[:2]
+        art["playback_tests"] = [code for _, code in tests]
+        if not tests:
+            status, why = "playback_failed", "Kani produced no concrete playback test"
+        else:
+            runs = {"dev": native_run(h, tests, False), "release_like": native_run(h, tests, True)}
+            art["native_runs"] = {k: [{"test": n, "exit": rc, "output": tail} for n, rc, tail in v] for k, v in runs.items()}
+            rcs = [rc for v in runs.values() for _, rc, _ in v]
+            if any(rc not in (0, None) for rc in rcs):
+                status = "reproduced"
+            elif all(rc is None for rc in rcs):
+                status, why = "playback_failed", "the native playback build did not run"
+            elif any(UB_CLASS.search(c.get("description", "")) for c in h.failed):
+                status, why = "ub_unconfirmed", "standard-level undefined behaviour that no native run confirms; triage by reading the failed checks"
+            else:
+                status, why = "not_reproduced", "the counterexample does not fail natively: the encoding or a stub is suspect"
+    art["replay_status"] = status
+    if why:
+        art["replay_note"] = why
     with open(path, "w") as f:
         json.dump(art, f, indent=1)
-    return path, None
+    return path, status
 
 
 def replay(prop, path):
@@ -24,15 +132,18 @@ def replay(prop, path):
         art = json.load(f)
     if art.get("engine") == "wmm":
         import wmm_engine
+        art["how_to_replay"] = path
         return wmm_engine.replay(prop, art)
     module = art["harness"].split("::")[0]
     hs, info = K.run_kani(module, "thorough", profile=art["profile"], exact=[art["harness"]], jobs=1,
                           tag=f"replay-{prop}")
     for h in hs:
-        log(f"[{prop}] replay {h.name}: {h.verdict}")
+        log(f"[{prop}] replay {h.name} ({h.profile}): {h.verdict}")
         for r in h.reasons:
             log("    " + r)
         if h.verdict == "violation":
+            p2, status = record(prop, h, art.get("key", ""))
+            log(f"[{prop}] native replay: {status}")
             log(f"VIOLATION property={prop} replay={path}")
             return EXIT_VIOLATION
         if h.verdict == "pass":
